@@ -54,21 +54,19 @@ def CrashAtomicFull : Prop :=
     (view (crash d (stmtSteps data es) k p) = .ok v ∧ abs (crash d (stmtSteps data es) k p) v = abs d v) ∨
       crash d (stmtSteps data es) k p = d.applyAll (stmtSteps data es)
 
-/-- Proved part: it holds at every crash point except a cut *inside* a manifest record: the
-database then opens with exactly the pre-state (same view, same table contents) or the crash
+/-- **Full statement, proved** (since /repo bceddd9 — replay ignores an incomplete record at the
+end of the file; before, the hypothesis "not cut inside a record" was needed and the full
+statement was refuted by `tornWitness`): at every crash point and every progress of the write in
+flight the database opens with exactly the pre-state (same view, same table contents), or the crash
 image IS the post-state directory. -/
-theorem crash_atomic_partial (d : Disk) (v : View) (data : List PStep) (es : List Rec) (k : Nat)
-    (p : Option Progress) (hv : view d = .ok v) (hb : Balanced d.recs) (hf : ∀ s ∈ data, Fresh v s)
-    (hes : ∀ e ∈ es, e.isBracket = false) (hnt : NotTorn p)
-    (hc : ∀ c t, p = some (.recs c t) → c < es.length + 2) :
-    (view (crash d (stmtSteps data es) k p) = .ok v ∧ abs (crash d (stmtSteps data es) k p) v = abs d v) ∨
-      crash d (stmtSteps data es) k p = d.applyAll (stmtSteps data es) := by
+theorem crash_atomic : CrashAtomicFull := by
+  intro d v data es k p hv hb hf hes hc
   have hh : ∀ x ∈ data, Harmless v x := fun x hx => Or.inl (hf x hx)
   unfold stmtSteps
   rcases Nat.lt_trichotomy k data.length with hk | hk | hk
   · left
     have h := crash_before_last v d data (PStep.appendManifest ([Rec.begin] ++ es ++ [Rec.fin])) k p hh (Or.inl hk)
-    exact ⟨view_agree h.1 (by rw [h.2.1]) h.2.2 hv, abs_agree h.1⟩
+    exact ⟨view_agree h.1 (by rw [h.2.1]) hv, abs_agree h.1⟩
   · -- the manifest append is the step in flight
     subst hk
     have hall := agree_applyAll_harmless v data hh d
@@ -80,53 +78,48 @@ theorem crash_atomic_partial (d : Disk) (v : View) (data : List PStep) (es : Lis
       left
       have h := crash_before_last v d data (PStep.appendManifest ([Rec.begin] ++ es ++ [Rec.fin])) data.length none hh
         (Or.inr ⟨rfl, rfl⟩)
-      exact ⟨view_agree h.1 (by rw [h.2.1]) h.2.2 hv, abs_agree h.1⟩
+      exact ⟨view_agree h.1 (by rw [h.2.1]) hv, abs_agree h.1⟩
     | some pr =>
       cases pr with
       | full => right; simp [crash, htake, hget, Disk.applyAll, List.foldl_append]
       | part => right; simp [crash, htake, hget, Disk.applyAll, List.foldl_append, Disk.apply]
       | recs c t =>
-        cases t with
-        | true => exact absurd hnt (by simp [NotTorn])
-        | false =>
-          left
-          have hc' := hc c false rfl
-          have hd : crash d (data ++ [PStep.appendManifest ([Rec.begin] ++ es ++ [Rec.fin])]) data.length (some (.recs c false)) =
-              { d.applyAll data with recs := (d.applyAll data).recs ++ ([Rec.begin] ++ es ++ [Rec.fin]).take c, torn := false } := by
-            simp [crash, htake, hget, Disk.apply]
-          rw [hd]
-          have hag : Agree v d { d.applyAll data with recs := (d.applyAll data).recs ++ ([Rec.begin] ++ es ++ [Rec.fin]).take c, torn := false } :=
-            ⟨fun x hx => hall.1.1 x hx, fun x hx => hall.1.2 x hx⟩
-          have htorn : d.torn = false := by
-            unfold view at hv
-            cases hd : d.torn with
-            | false => rfl
-            | true => simp [hd] at hv
-          refine ⟨view_agree hag ?_ htorn.symm hv, abs_agree hag⟩
-          simp only [hall.2.1]
-          exact replay_append_prefix d.recs es hb hes c hc'
+        -- `c` complete records, and possibly (`t`) a torn one after them: ignored either way
+        left
+        have hc' := hc c t rfl
+        have hd : crash d (data ++ [PStep.appendManifest ([Rec.begin] ++ es ++ [Rec.fin])]) data.length (some (.recs c t)) =
+            { d.applyAll data with recs := (d.applyAll data).recs ++ ([Rec.begin] ++ es ++ [Rec.fin]).take c, torn := t } := by
+          simp [crash, htake, hget, Disk.apply]
+        rw [hd]
+        have hag : Agree v d { d.applyAll data with recs := (d.applyAll data).recs ++ ([Rec.begin] ++ es ++ [Rec.fin]).take c, torn := t } :=
+          ⟨fun x hx => hall.1.1 x hx, fun x hx => hall.1.2 x hx⟩
+        refine ⟨view_agree hag ?_ hv, abs_agree hag⟩
+        simp only [hall.2.1]
+        exact replay_append_prefix d.recs es hb hes c hc'
   · right
     have hlen : (data ++ [PStep.appendManifest ([Rec.begin] ++ es ++ [Rec.fin])]).length ≤ k := by
       simp; omega
     unfold crash
     rw [List.take_of_length_le hlen, List.getElem?_eq_none hlen]
 
-/-- The excluded point is real: a manifest append cut inside a record makes `open` fail
-(`JsonDecode(EOF while parsing …)`) — the database is unopenable, not even the pre-state is
-reachable. Witness: `CREATE TABLE u` interrupted after `Begin` and a few bytes of its record. -/
+/-- The instance the earlier name referred to (kept for the obligation list). -/
+theorem crash_atomic_partial (d : Disk) (v : View) (data : List PStep) (es : List Rec) (k : Nat)
+    (p : Option Progress) (hv : view d = .ok v) (hb : Balanced d.recs) (hf : ∀ s ∈ data, Fresh v s)
+    (hes : ∀ e ∈ es, e.isBracket = false) (_hnt : NotTorn p)
+    (hc : ∀ c t, p = some (.recs c t) → c < es.length + 2) :
+    (view (crash d (stmtSteps data es) k p) = .ok v ∧ abs (crash d (stmtSteps data es) k p) v = abs d v) ∨
+      crash d (stmtSteps data es) k p = d.applyAll (stmtSteps data es) :=
+  crash_atomic d v data es k p hv hb hf hes hc
+
+/-- The former witness against atomicity: `CREATE TABLE u` cut inside its manifest record. -/
 def tornWitness : Disk :=
   { Disk.empty with boot := 3, recs := [.begin, .createTable "t" 2, .fin] }
 
-theorem crash_atomic_unsound : ¬ CrashAtomicFull := by
-  intro h
-  have := h tornWitness (⟨[⟨"t", 0, 2⟩], 1, [.createTable "t" 2], [], [], 0, 0⟩) [] [.createTable "u" 2] 0
-    (some (.recs 1 true)) rfl rfl (by intro s hs; cases hs) (by decide)
-    (by intro c t hct; cases hct; decide)
-  rcases this with ⟨hview, _⟩ | heq
-  · have : view (crash tornWitness (stmtSteps [] [.createTable "u" 2]) 0 (some (.recs 1 true))) = .error "json-eof" := rfl
-    rw [this] at hview
-    cases hview
-  · exact absurd heq (by decide)
+/-- REGRESSION (was `crash_atomic_unsound`: `view = error "json-eof"`, database unopenable): the
+torn image opens, with the pre-state. -/
+theorem crash_atomic_torn_regression :
+    view (crash tornWitness (stmtSteps [] [.createTable "u" 2]) 0 (some (.recs 1 true))) =
+      .ok ⟨[⟨"t", 0, 2⟩], 1, [.createTable "t" 2], [], [], 0, 0⟩ := rfl
 
 /-! ## durability -/
 
@@ -180,48 +173,17 @@ def Crash.recoverPrefix (d : Disk) (v : View) : List PStep :=
   (if d.boot < 1 then [PStep.mkdirDb] else []) ++ (if d.boot < 2 then [PStep.mkdirDv] else []) ++
   (if d.boot < 3 then [PStep.createManifest] else []) ++
   (orphans d v).map (fun x => PStep.rmdir x.t x.r) ++
+  (orphanDvs d v).map (fun x => PStep.rmdv x.t x.r x.d) ++
   [PStep.createTmp, PStep.appendTmp (rewriteRecs v)]
 
-theorem recoverSteps_eq (d : Disk) (v : View) : recoverSteps d v = recoverPrefix d v ++ [PStep.renameTmp] := by
+theorem recoverSteps_eq (d : Disk) (v : View) :
+    recoverSteps d v = recoverPrefix d v ++ [PStep.renameTmp, PStep.syncDir] := by
   simp [recoverSteps, recoverPrefix]
-
-/-- A crash anywhere inside recovery before its final `rename` — including inside the write of
-`manifest.tmp.json`, torn or not — leaves a directory that opens to exactly the same view and
-contents: recovering again gives the same state. -/
-theorem recover_idempotent_partial (d : Disk) (v : View) (hv : view d = .ok v) (k : Nat) (p : Option Progress)
-    (hk : k < (recoverPrefix d v).length ∨ (k = (recoverPrefix d v).length ∧ p = none)) :
-    view (crash d (recoverSteps d v) k p) = .ok v ∧ abs (crash d (recoverSteps d v) k p) v = abs d v := by
-  rw [recoverSteps_eq]
-  have hh : ∀ x ∈ recoverPrefix d v, Harmless v x := by
-    intro x hx
-    simp only [recoverPrefix, List.mem_append, List.mem_map, List.mem_cons, List.mem_nil_iff, or_false] at hx
-    rcases hx with (((hx | hx) | hx) | ⟨o, ho, hx⟩) | hx | hx
-    · split at hx <;> simp at hx; subst hx; exact Or.inr (Or.inl rfl)
-    · split at hx <;> simp at hx; subst hx; exact Or.inr (Or.inr (Or.inl rfl))
-    · split at hx <;> simp at hx; subst hx; exact Or.inr (Or.inr (Or.inr (Or.inl rfl)))
-    · subst hx
-      left
-      simp only [orphans, List.mem_filter] at ho
-      simp only [Fresh]
-      intro hmem
-      have := ho.2
-      simp [hmem] at this
-    · subst hx; exact Or.inr (Or.inr (Or.inr (Or.inr (Or.inl rfl))))
-    · subst hx; exact Or.inr (Or.inr (Or.inr (Or.inr (Or.inr ⟨_, rfl⟩))))
-  have h := crash_before_last v d (recoverPrefix d v) PStep.renameTmp k p hh hk
-  exact ⟨view_agree h.1 (by rw [h.2.1]) h.2.2 hv, abs_agree h.1⟩
-
-
-/-! ## the state after recovery's `rename`, and crashes at every position of recovery -/
-
-theorem view_of_parts {d : Disk} {v : View} (ht : d.torn = false)
-    (hl : View.empty.applyRecs (replay d.recs) = .ok v) (hf : filesOk d v = true) : view d = .ok v := by
-  simp [view, ht, hl, hf]
 
 theorem recoverPrefix_harmless (d : Disk) (v : View) : ∀ x ∈ recoverPrefix d v, Harmless v x := by
   intro x hx
   simp only [recoverPrefix, List.mem_append, List.mem_map, List.mem_cons, List.mem_nil_iff, or_false] at hx
-  rcases hx with (((hx | hx) | hx) | ⟨o, ho, hx⟩) | hx | hx
+  rcases hx with ((((hx | hx) | hx) | ⟨o, ho, hx⟩) | ⟨o, ho, hx⟩) | hx | hx
   · split at hx <;> simp at hx; subst hx; exact Or.inr (Or.inl rfl)
   · split at hx <;> simp at hx; subst hx; exact Or.inr (Or.inr (Or.inl rfl))
   · split at hx <;> simp at hx; subst hx; exact Or.inr (Or.inr (Or.inr (Or.inl rfl)))
@@ -232,71 +194,157 @@ theorem recoverPrefix_harmless (d : Disk) (v : View) : ∀ x ∈ recoverPrefix d
     intro hmem
     have := ho.2
     simp [hmem] at this
+  · subst hx
+    left
+    simp only [orphanDvs, List.mem_filter] at ho
+    simp only [Fresh]
+    intro hmem
+    have := ho.2
+    simp [hmem] at this
   · subst hx; exact Or.inr (Or.inr (Or.inr (Or.inr (Or.inl rfl))))
-  · subst hx; exact Or.inr (Or.inr (Or.inr (Or.inr (Or.inr ⟨_, rfl⟩))))
+  · subst hx; exact Or.inr (Or.inr (Or.inr (Or.inr (Or.inr (Or.inr ⟨_, rfl⟩)))))
 
-/-- The directory recovery leaves behind. -/
-theorem applyAll_recoverSteps (d : Disk) (v : View) :
-    d.applyAll (recoverSteps d v) =
+/-- A crash anywhere inside recovery before its final `rename` — including inside the write of
+`manifest.tmp.json`, torn or not — leaves a directory that opens to exactly the same view and
+contents: recovering again gives the same state. -/
+theorem recover_idempotent_partial (d : Disk) (v : View) (hv : view d = .ok v) (k : Nat) (p : Option Progress)
+    (hk : k < (recoverPrefix d v).length ∨ (k = (recoverPrefix d v).length ∧ p = none)) :
+    view (crash d (recoverSteps d v) k p) = .ok v ∧ abs (crash d (recoverSteps d v) k p) v = abs d v := by
+  rw [recoverSteps_eq]
+  have h := crash_before_tail v d (recoverPrefix d v) [PStep.renameTmp, PStep.syncDir] k p (recoverPrefix_harmless d v) hk
+  exact ⟨view_agree h.1 (by rw [h.2.1]) hv, abs_agree h.1⟩
+
+/-! ## the state after recovery's `rename`, and crashes at every position of recovery -/
+
+theorem view_of_parts {d : Disk} {v : View}
+    (hl : View.empty.applyRecs (replay d.recs) = .ok v) (hf : filesOk d v = true) : view d = .ok v := by
+  simp [view, hl, hf]
+
+/-- The directory right after the `rename` (the directory fsync may still be missing: `shadow`). -/
+theorem applyAll_renamed (d : Disk) (v : View) :
+    d.applyAll (recoverPrefix d v ++ [PStep.renameTmp]) =
       { d.applyAll (recoverPrefix d v) with recs := rewriteRecs v, torn := false, tmp := none, shadow := some (d.applyAll (recoverPrefix d v)).recs } := by
   have htmp : (d.applyAll (recoverPrefix d v)).tmp = some (rewriteRecs v, false) := by
     simp [recoverPrefix, Disk.applyAll, List.foldl_append, Disk.apply]
-  rw [recoverSteps_eq]
   have happ : d.applyAll (recoverPrefix d v ++ [PStep.renameTmp]) = (d.applyAll (recoverPrefix d v)).apply .renameTmp .full := by
     simp [Disk.applyAll, List.foldl_append]
   rw [happ]
   generalize d.applyAll (recoverPrefix d v) = d1 at htmp ⊢
   simp only [Disk.apply, htmp]
 
+/-- The directory recovery leaves behind. -/
+theorem applyAll_recoverSteps (d : Disk) (v : View) :
+    d.applyAll (recoverSteps d v) =
+      { d.applyAll (recoverPrefix d v) with recs := rewriteRecs v, torn := false, tmp := none, shadow := none } := by
+  have h := applyAll_renamed d v
+  have happ : d.applyAll (recoverSteps d v) = (d.applyAll (recoverPrefix d v ++ [PStep.renameTmp])).apply .syncDir .full := by
+    rw [recoverSteps_eq]
+    have : recoverPrefix d v ++ [PStep.renameTmp, PStep.syncDir] = (recoverPrefix d v ++ [PStep.renameTmp]) ++ [PStep.syncDir] := by simp
+    rw [this]
+    simp [Disk.applyAll, List.foldl_append]
+  rw [happ, h]
+  rfl
+
+/-- Recovery ends with the directory fsynced: no rename is pending any more. -/
+theorem recover_clears_shadow (d : Disk) (s : State) (h : recover d = .ok s) : s.disk.shadow = none := by
+  unfold recover at h
+  cases hv : view d with
+  | error e => simp [hv] at h
+  | ok v => simp only [hv] at h; cases h; rw [applyAll_recoverSteps]
+
+/-- What the image looks like at any point after the rename: the recovered directory, up to the
+`shadow` bookkeeping (which `view` and `abs` do not look at). -/
+theorem view_after_rename (d : Disk) (v : View) (hv : view d = .ok v) (sh : Option (List Rec)) :
+    ∃ n m, view { d.applyAll (recoverSteps d v) with shadow := sh } = .ok { v with nextR := n, nextD := m } ∧
+      abs { d.applyAll (recoverSteps d v) with shadow := sh } { v with nextR := n, nextD := m } = abs d v := by
+  obtain ⟨n, m, hload⟩ := load_rewrite v (canon_of_view hv)
+  have h1 := agree_applyAll_harmless v (recoverPrefix d v) (recoverPrefix_harmless d v) d
+  have hag : Agree v d { d.applyAll (recoverSteps d v) with shadow := sh } := by
+    rw [applyAll_recoverSteps]
+    exact ⟨fun x hx => h1.1.1 x hx, fun x hx => h1.1.2 x hx⟩
+  refine ⟨n, m, ?_, ?_⟩
+  · apply view_of_parts
+    · rw [applyAll_recoverSteps]; exact hload
+    · have : filesOk { d.applyAll (recoverSteps d v) with shadow := sh } { v with nextR := n, nextD := m } =
+          filesOk { d.applyAll (recoverSteps d v) with shadow := sh } v := rfl
+      rw [this, filesOk_agree hag]
+      exact (view_ok_parts hv).2
+  · have : abs { d.applyAll (recoverSteps d v) with shadow := sh } { v with nextR := n, nextD := m } =
+        abs { d.applyAll (recoverSteps d v) with shadow := sh } v := rfl
+    rw [this, abs_agree hag]
+
 /-- **The recovered store's rewritten manifest replays to the same state**: for every directory
 that opens, the directory recovery leaves opens again, to a view with the same tables, row-sets and
 delete vectors (only the id counters are re-derived), hence the same contents. -/
 theorem recover_after_rename (d : Disk) (v : View) (hv : view d = .ok v) :
     ∃ n m, view (d.applyAll (recoverSteps d v)) = .ok { v with nextR := n, nextD := m } ∧
-      abs (d.applyAll (recoverSteps d v)) { v with nextR := n, nextD := m } = abs d v := by
-  obtain ⟨n, m, hload⟩ := load_rewrite v (canon_of_view hv)
-  have h1 := agree_applyAll_harmless v (recoverPrefix d v) (recoverPrefix_harmless d v) d
-  have hag : Agree v d (d.applyAll (recoverSteps d v)) := by
-    rw [applyAll_recoverSteps]
-    exact ⟨fun x hx => h1.1.1 x hx, fun x hx => h1.1.2 x hx⟩
-  refine ⟨n, m, ?_, ?_⟩
-  · apply view_of_parts
-    · rw [applyAll_recoverSteps]
-    · rw [applyAll_recoverSteps]; exact hload
-    · have : filesOk (d.applyAll (recoverSteps d v)) { v with nextR := n, nextD := m } =
-          filesOk (d.applyAll (recoverSteps d v)) v := rfl
-      rw [this, filesOk_agree hag]
-      exact (view_ok_parts hv).2.2
-  · have : abs (d.applyAll (recoverSteps d v)) { v with nextR := n, nextD := m } =
-        abs (d.applyAll (recoverSteps d v)) v := rfl
-    rw [this, abs_agree hag]
+      abs (d.applyAll (recoverSteps d v)) { v with nextR := n, nextD := m } = abs d v :=
+  view_after_rename d v hv (d.applyAll (recoverSteps d v)).shadow
 
 /-- Crash-inside-recovery at **every** position `k` and every progress of the step in flight
-(before, during or after the `rename`): the image opens, with the same contents. -/
+(before, during or after the `rename`, before or after the directory fsync): the image opens,
+with the same contents. -/
 theorem recover_idempotent (d : Disk) (v : View) (hv : view d = .ok v) (k : Nat) (p : Option Progress) :
     ∃ v', view (crash d (recoverSteps d v) k p) = .ok v' ∧ abs (crash d (recoverSteps d v) k p) v' = abs d v := by
   by_cases hk : k < (recoverPrefix d v).length ∨ (k = (recoverPrefix d v).length ∧ p = none)
   · exact ⟨v, recover_idempotent_partial d v hv k p hk⟩
-  · -- the rename happened: the image is the recovered directory
-    have himg : crash d (recoverSteps d v) k p = d.applyAll (recoverSteps d v) := by
-      have hlen : (recoverSteps d v).length = (recoverPrefix d v).length + 1 := by rw [recoverSteps_eq]; simp
+  · -- the rename happened: the image is the directory right after the rename (`B`) or the fully
+    -- recovered one (`A`); they differ in `shadow` only
+    have hA : d.applyAll (recoverSteps d v) = (d.applyAll (recoverPrefix d v ++ [PStep.renameTmp])).apply .syncDir .full := by
+      rw [recoverSteps_eq]
+      have : recoverPrefix d v ++ [PStep.renameTmp, PStep.syncDir] = (recoverPrefix d v ++ [PStep.renameTmp]) ++ [PStep.syncDir] := by simp
+      rw [this]
+      simp [Disk.applyAll, List.foldl_append]
+    have hB : d.applyAll (recoverPrefix d v ++ [PStep.renameTmp]) =
+        { d.applyAll (recoverSteps d v) with shadow := some (d.applyAll (recoverPrefix d v)).recs } := by
+      rw [applyAll_renamed, applyAll_recoverSteps]
+    have himg : crash d (recoverSteps d v) k p = d.applyAll (recoverSteps d v) ∨
+        crash d (recoverSteps d v) k p = d.applyAll (recoverPrefix d v ++ [PStep.renameTmp]) := by
+      have hlen : (recoverSteps d v).length = (recoverPrefix d v).length + 2 := by rw [recoverSteps_eq]; simp
       rcases Nat.lt_trichotomy k (recoverPrefix d v).length with h | h | h
       · exact absurd (Or.inl h) hk
       · cases p with
         | none => exact absurd (Or.inr ⟨h, rfl⟩) hk
         | some pr =>
+          right
           rw [recoverSteps_eq]
           unfold crash
-          have htake : (recoverPrefix d v ++ [PStep.renameTmp]).take k = recoverPrefix d v := by rw [h]; simp
-          have hget : (recoverPrefix d v ++ [PStep.renameTmp])[k]? = some PStep.renameTmp := by rw [h]; simp
+          have htake : (recoverPrefix d v ++ [PStep.renameTmp, PStep.syncDir]).take k = recoverPrefix d v := by rw [h]; simp
+          have hget : (recoverPrefix d v ++ [PStep.renameTmp, PStep.syncDir])[k]? = some PStep.renameTmp := by rw [h]; simp
           rw [htake, hget]
           simp [Disk.applyAll, List.foldl_append, Disk.apply]
-      · have hle : (recoverSteps d v).length ≤ k := by omega
-        unfold crash
-        rw [List.take_of_length_le hle, List.getElem?_eq_none hle]
-    rw [himg]
-    obtain ⟨n, m, h1, h2⟩ := recover_after_rename d v hv
-    exact ⟨_, h1, h2⟩
+      · by_cases h1 : k = (recoverPrefix d v).length + 1
+        · have hsplit : recoverPrefix d v ++ [PStep.renameTmp, PStep.syncDir] = (recoverPrefix d v ++ [PStep.renameTmp]) ++ [PStep.syncDir] := by simp
+          have htake : (recoverPrefix d v ++ [PStep.renameTmp, PStep.syncDir]).take k = recoverPrefix d v ++ [PStep.renameTmp] := by
+            rw [h1, hsplit, List.take_append_of_le_length (by simp)]
+            exact List.take_of_length_le (by simp)
+          have hget : (recoverPrefix d v ++ [PStep.renameTmp, PStep.syncDir])[k]? = some PStep.syncDir := by
+            rw [h1]; simp
+          cases p with
+          | none =>
+            right
+            rw [recoverSteps_eq]
+            unfold crash
+            rw [htake, hget]
+          | some pr =>
+            left
+            rw [hA, recoverSteps_eq]
+            unfold crash
+            rw [htake, hget]
+            rfl
+        · have hle : (recoverSteps d v).length ≤ k := by omega
+          left
+          unfold crash
+          rw [List.take_of_length_le hle, List.getElem?_eq_none hle]
+    rcases himg with himg | himg
+    · rw [himg]
+      obtain ⟨n, m, h1, h2⟩ := recover_after_rename d v hv
+      exact ⟨_, h1, h2⟩
+    · rw [himg, hB]
+      obtain ⟨n, m, h1, h2⟩ := view_after_rename d v hv (some (d.applyAll (recoverPrefix d v)).recs)
+      exact ⟨_, h1, h2⟩
+
+theorem abs_next (d : Disk) (v : View) (n m : Nat) : abs d { v with nextR := n, nextD := m } = abs d v := rfl
 
 /-- `recover (recover d) = recover d` up to `abs`, for every `d` that opens. -/
 theorem recover_recover (d : Disk) (s : State) (h : recover d = .ok s) :
@@ -313,11 +361,8 @@ theorem recover_recover (d : Disk) (s : State) (h : recover d = .ok s) :
       { v with nextR := n, nextD := m }, []⟩, ?_, ?_⟩
     · simp only [recover, h1]
     simp only
-    have e1 : abs ((d.applyAll (recoverSteps d v)).applyAll (recoverSteps (d.applyAll (recoverSteps d v)) { v with nextR := n, nextD := m }))
-        { v with nextR := n, nextD := m } =
-        abs (d.applyAll (recoverSteps d v)) { v with nextR := n, nextD := m } := h4
-    rw [e1, h2]
-    -- the first recovery's own abstraction: same row-sets and files as before it
+    rw [abs_next] at h4
+    rw [h4, h2]
     have h0 := agree_applyAll_harmless v (recoverPrefix d v) (recoverPrefix_harmless d v) d
     have hag : Agree v d (d.applyAll (recoverSteps d v)) := by
       rw [applyAll_recoverSteps]
@@ -347,45 +392,44 @@ theorem vacuum_crash_harmless (d : Disk) (v : View) (hv : view d = .ok v) (steps
         have h1 := agree_apply_harmless v (d.applyAll (steps.take k)) s pr (hh s hs)
         exact ⟨Agree.trans h0.1 h1.1, h1.2.1.trans h0.2.1, h1.2.2.trans h0.2.2⟩
   have h := key k p
-  exact ⟨view_agree h.1 (by rw [h.2.1]) h.2.2 hv, abs_agree h.1⟩
+  exact ⟨view_agree h.1 (by rw [h.2.1]) hv, abs_agree h.1⟩
 
-/-! ## the un-fsynced rename -/
+/-! ## the rename and its directory fsync -/
 
-/-- FULL statement under a file system that may drop a `rename` whose directory was never
-fsynced (the code never fsyncs it): losing it at any later time still leaves every acknowledged
-statement visible. -/
-def LostRenameDurableFull : Prop :=
-  ∀ (s : State) (ops : List Op) (s' : State), view s.disk = .ok s.mem →
-    recover (loseRename (run s ops).disk) = .ok s' → abs s'.disk s'.mem = abs (run s ops).disk (run s ops).mem
-
-/-- Right after recovery nothing is at stake: with the rename lost the directory holds the old
-`manifest.json` next to a complete `manifest.tmp.json`; it opens to the same view and contents. -/
-theorem lost_rename_right_after_recovery (d : Disk) (v : View) (hv : view d = .ok v) :
-    view (loseRename (d.applyAll (recoverSteps d v))) = .ok v ∧
-      abs (loseRename (d.applyAll (recoverSteps d v))) v = abs d v := by
+/-- Between the `rename` and the directory fsync the rename may still be lost at a crash: the
+directory then holds the old `manifest.json` next to a complete `manifest.tmp.json`; it opens to
+the same view and contents. -/
+theorem lost_rename_right_after_rename (d : Disk) (v : View) (hv : view d = .ok v) :
+    view (loseRename (d.applyAll (recoverPrefix d v ++ [PStep.renameTmp]))) = .ok v ∧
+      abs (loseRename (d.applyAll (recoverPrefix d v ++ [PStep.renameTmp]))) v = abs d v := by
   have h0 := agree_applyAll_harmless v (recoverPrefix d v) (recoverPrefix_harmless d v) d
-  have hag : Agree v d (loseRename (d.applyAll (recoverSteps d v))) := by
-    rw [applyAll_recoverSteps]
+  have hag : Agree v d (loseRename (d.applyAll (recoverPrefix d v ++ [PStep.renameTmp]))) := by
+    rw [applyAll_renamed]
     exact ⟨fun x hx => h0.1.1 x hx, fun x hx => h0.1.2 x hx⟩
-  have hrecs : (loseRename (d.applyAll (recoverSteps d v))).recs = d.recs := by
-    rw [applyAll_recoverSteps]; simp [loseRename, h0.2.1]
-  have htorn : (loseRename (d.applyAll (recoverSteps d v))).torn = d.torn := by
-    rw [applyAll_recoverSteps]; simp [loseRename, (view_ok_parts hv).1]
-  exact ⟨view_agree hag (by rw [hrecs]) htorn hv, abs_agree hag⟩
+  have hrecs : (loseRename (d.applyAll (recoverPrefix d v ++ [PStep.renameTmp]))).recs = d.recs := by
+    rw [applyAll_renamed]; simp [loseRename, h0.2.1]
+  exact ⟨view_agree hag (by rw [hrecs]) hv, abs_agree hag⟩
 
-/-- …but statements acknowledged *after* that recovery are appended to the renamed file; if the
-rename is lost later they are in `manifest.tmp.json`, which the next boot truncates. Witness:
-boot, `CREATE TABLE t`, rename lost ⇒ the table is gone. -/
+/-- Once recovery has completed (directory fsynced, /repo 96ec538) there is no rename left to
+lose. -/
+theorem lost_rename_after_recovery (d : Disk) (s : State) (h : recover d = .ok s) : loseRename s.disk = s.disk := by
+  have := recover_clears_shadow d s h
+  simp [loseRename, this]
+
+/-- The former witness state (a store with the rename still pending while statements run): boot,
+`CREATE TABLE t`, rename lost ⇒ the table was gone. Not reachable any more. -/
 def lostRenameState : State :=
   ⟨⟨3, [.begin, .fin], false, none, [], [], some []⟩, View.empty, []⟩
 
-theorem lost_rename_durable_unsound : ¬ LostRenameDurableFull := by
-  intro h
-  have hr : ∃ s', recover (loseRename (run lostRenameState [.create "t" 2]).disk) = .ok s' ∧
-      abs s'.disk s'.mem ≠ abs (run lostRenameState [.create "t" 2]).disk (run lostRenameState [.create "t" 2]).mem := by
-    refine ⟨⟨⟨3, [.begin, .fin], false, none, [], [], some []⟩, View.empty, []⟩, rfl, by decide⟩
-  obtain ⟨s', h1, h2⟩ := hr
-  exact h2 (h lostRenameState [.create "t" 2] s' rfl h1)
+/-- REGRESSION (was `lost_rename_durable_unsound`): the same history on a store booted by the
+repaired `recover` — fresh directory, `CREATE TABLE t`, then the file system drops whatever
+rename it still may — keeps the table. -/
+theorem lost_rename_regression :
+    (match recover Disk.empty with
+     | .ok s0 => (match recover (loseRename (run s0 [.create "t" 2]).disk) with
+        | .ok s' => abs s'.disk s'.mem == abs (run s0 [.create "t" 2]).disk (run s0 [.create "t" 2]).mem
+        | .error _ => false)
+     | .error _ => false) = true := by decide
 
 /-! ## post-recovery statements -/
 
@@ -427,9 +471,38 @@ theorem post_recovery_accepts_insert (d : Disk) (v : View) (t r : Nat) (h : (t, 
   simp only [orphans, List.mem_filter]
   exact ⟨hx, by simp [hm]⟩
 
-/-- …but unreferenced *delete-vector files* are never removed, and the id of the interrupted
-DELETE's file is issued again: the next DELETE fails on `create_new` (`AlreadyExists`). Witness:
-`DELETE FROM t WHERE a >= 3` interrupted after its DV file was written, then recovered. -/
+/-- …and (since /repo 36211f7) every unreferenced *delete-vector file* as well, so the file a
+DELETE creates next never exists either. -/
+theorem post_recovery_accepts_dv (d : Disk) (v : View) (t r dv : Nat) (h : (t, r, dv) ∉ v.dvs) :
+    findDv (d.applyAll ((orphanDvs d v).map fun x => PStep.rmdv x.t x.r x.d)) t r dv = none := by
+  have key : ∀ (os : List DvFile) (d0 : Disk), (∀ x ∈ d0.dvfiles, (x.t, x.r, x.d) ∉ v.dvs → x ∈ os) →
+      findDv (d0.applyAll (os.map fun x => PStep.rmdv x.t x.r x.d)) t r dv = none := by
+    intro os
+    induction os with
+    | nil =>
+      intro d0 hall
+      simp only [List.map_nil, Disk.applyAll, List.foldl_nil, findDv, List.find?_eq_none]
+      intro x hx
+      by_cases hm : (x.t, x.r, x.d) ∈ v.dvs
+      · simp; intro h1 h2 h3; exact h (by rw [← h1, ← h2, ← h3]; exact hm)
+      · exact absurd (hall x hx hm) (by simp)
+    | cons o os ih =>
+      intro d0 hall
+      simp only [List.map_cons, Disk.applyAll, List.foldl_cons]
+      apply ih
+      intro x hx hm
+      simp only [Disk.apply, List.mem_filter] at hx
+      have := hall x hx.1 hm
+      rcases List.mem_cons.mp this with he | he
+      · subst he; simp at hx
+      · exact he
+  apply key
+  intro x hx hm
+  simp only [orphanDvs, List.mem_filter]
+  exact ⟨hx, by simp [hm]⟩
+
+/-- The former witness: `DELETE FROM t WHERE a >= 3` interrupted after its DV file was written,
+then recovered. -/
 def orphanDvState : State :=
   ⟨⟨3, [.begin, .createTable "t" 2, .addRowSet 0 0, .fin], false, none,
       [⟨0, 0, [[2, 5], [3, 6]], 4, 4, false⟩], [], none⟩,
@@ -441,13 +514,12 @@ def orphanRecovered : State :=
   | .ok s => s
   | .error _ => orphanDvState
 
-theorem post_recovery_accepts_unsound : ¬ PostRecoveryAcceptsFull := by
-  intro h
-  have hs' : recover (crash orphanDvState.disk (psteps orphanDvState (.delete "t" .ge 3)) 1 none) = .ok orphanRecovered := rfl
-  have hdis : allEnabled orphanRecovered.disk (psteps orphanRecovered (.delete "t" .ge 3)) = false := by decide
-  have := h orphanDvState "t" .ge 3 1 none orphanRecovered rfl (by simp [NotTorn]) hs'
-  rw [hdis] at this
-  cases this
+/-- REGRESSION (was `post_recovery_accepts_unsound`: the next DELETE failed on `create_new`): the
+orphan file is gone after recovery and the same DELETE can create its files. -/
+theorem post_recovery_accepts_regression :
+    recover (crash orphanDvState.disk (psteps orphanDvState (.delete "t" .ge 3)) 1 none) = .ok orphanRecovered ∧
+    orphanRecovered.disk.dvfiles = [] ∧
+    allEnabled orphanRecovered.disk (psteps orphanRecovered (.delete "t" .ge 3)) = true := ⟨rfl, by decide, by decide⟩
 
 /-! ## non-vacuity -/
 
@@ -456,6 +528,7 @@ example : Balanced tornWitness.recs := rfl
 example : view orphanDvState.disk = .ok orphanDvState.mem := rfl
 example : Fresh orphanDvState.mem (.writeDv 0 0 0 [1]) := by simp [Fresh, orphanDvState]
 example : (recoverPrefix orphanDvState.disk orphanDvState.mem).length = 2 := by decide
-example : (orphans orphanRecovered.disk orphanRecovered.mem) = [] ∧ orphanRecovered.disk.dvfiles.length = 1 := by decide
+example : (orphanDvs (crash orphanDvState.disk (psteps orphanDvState (.delete "t" .ge 3)) 1 none) orphanDvState.mem).length = 1 := by decide
+example : loseRename lostRenameState.disk ≠ lostRenameState.disk := by decide
 
 end RlModel
